@@ -19,5 +19,5 @@ func TestC04(t *testing.T) {
 	if err != nil {
 		t.Fatalf("VERIF-INFRA registry: %v", err)
 	}
-	r.RunC04(t, st, 12000, 300000)
+	r.RunC04(t, st, 12000, 900000)
 }
